@@ -74,7 +74,7 @@ pub fn case_data(va: &dyn VariantApi, data: &[u8], st: &CaseStats) -> Result<(),
 }
 
 fn run_data(ctx: &Ctx) -> CheckResult {
-    let cases = ctx.tier.pick(1200u32, 12000);
+    let cases = ctx.tier.pick(4000u32, 40000);
     let max = ctx.tier.pick(20_000usize, 70_000);
     for va in ctx.api.variants() {
         let v = va.v();
@@ -157,7 +157,7 @@ fn run_state(ctx: &Ctx) -> CheckResult {
         ctx.skipped("state: built without hooks");
         return Ok(());
     }
-    let cases = ctx.tier.pick(1500u32, 15000);
+    let cases = ctx.tier.pick(5000u32, 50000);
     for va in ctx.api.variants() {
         let v = va.v();
         let stream = format!("state/{}", v.name);
